@@ -13,6 +13,7 @@
 #include "ovl_types.hpp"
 #include <unordered_set>
 #include <array>
+#include <errno.h>
 
 #if defined(__SANITIZE_ADDRESS__)
 #define OVL_EXACT 1
@@ -21,6 +22,16 @@ extern "C" const char *__asan_default_options() { return "detect_leaks=0:abort_o
 #else
 #define OVL_EXACT 0
 #endif
+#if defined(__SANITIZE_THREAD__)
+#define OVL_TSAN 1
+#include <thread>
+#include <atomic>
+#include <fcntl.h>
+extern "C" const char *__tsan_default_options() { return "halt_on_error=0:exitcode=0"; }
+#else
+#define OVL_TSAN 0
+#endif
+#define OVL_PRIVATE (OVL_EXACT || OVL_TSAN) // every case allocates its own exact-size heap blocks (no shared arenas)
 
 namespace ovl
 {
@@ -31,6 +42,8 @@ static const u64 BV[NBV] = {0, 1, P - 1, P, P + 1, 0xFFFFFFFFULL, 0x100000000ULL
                             0x8000000000000000ULL, 0xFFFFFFFE00000001ULL, 0x5555555555555555ULL};
 static const u64 STRIDES_Q[] = {0, 1, 3, 5, 1000};
 static const u64 STRIDES_T[] = {0, 1, 2, 3, 4, 5, 7, 64, 1000};
+static const u64 STRIDES_HUGE[] = {715827883ULL, (1ULL << 31) + 5, (1ULL << 32) + 7}; // ceil(2^31/3): 3*s no longer fits int32; > 2^31; > 2^32
+static const u64 HUGE_FROM = 1ULL << 20;
 static bool g_thorough = false;
 enum { IP_IDENT = 0, IP_REV, IP_EQ, IP_SCAT, IP_REP, IP_BIG, NIP };
 static const char *const IPN[NIP] = {"ident", "rev", "eq", "scat", "rep", "big"};
@@ -124,7 +137,9 @@ struct Case
     int vd;    // extra rotation of operand b against operand a
     int vm;    // step of the rotation between neighbouring positions (1..10; 11 is prime, so every step is a permutation)
     int al;    // Alias form: AL_NONE, AL_CA (result object IS operand a), AL_CB, AL_AB (a and b one object), AL_CAB
+    int reent; // re-entrancy step: number of threads that execute the case concurrently on private data (0 = ordinary case)
 };
+inline bool is_huge(const Case &c);
 static const char *const ALN[NAL] = {"-", "c:a", "c:b", "a:b", "c:a:b"};
 // slot q lives in the object of slot root(q)
 inline int root_of(int al, int q)
@@ -149,6 +164,7 @@ inline std::string casestr(const Case &c)
     }
     t += fmt(" vp=%d vd=%d vm=%d", c.vp, c.vd, c.vm);
     if (c.al) t += fmt(" alias=%s", ALN[c.al]);
+    if (c.reent) t += fmt(" reent=%d", c.reent);
     return t;
 }
 inline int find_spec(const std::string &id)
@@ -175,6 +191,7 @@ inline bool parse_casestr(const std::string &str, Case &c)
     c.vd = (int)cu(m, "vd", 0);
     c.vm = (int)cu(m, "vm", 1);
     if (c.vm < 1 || c.vm >= NBV) c.vm = 1;
+    c.reent = (int)cu(m, "reent", 0);
     c.al = AL_NONE;
     std::string al = cs(m, "alias", "-");
     for (int j = 1; j < NAL; j++)
@@ -182,6 +199,15 @@ inline bool parse_casestr(const std::string &str, Case &c)
     if (c.al && !(ovl_specs[c.si].alias & (1 << (c.al - 1)))) return false; // not expressible for this overload
     return true;
 }
+
+inline bool is_huge(const Case &c)
+{
+    const Spec &s = ovl_specs[c.si];
+    for (int q = 0; q < 3; q++)
+        if (opnd(s, q).carrier == C_ARR_STRIDE && c.s[q] >= HUGE_FROM) return true;
+    return false;
+}
+inline std::string sig_suffix(const Case &c) { return std::string(c.al ? ".alias" : "") + (is_huge(c) ? ".hugestride" : ""); }
 
 // ---------------------------------------------------------------- one case
 struct Counters
@@ -197,7 +223,19 @@ struct Slot
     u64 *alloc = 0;    // exact mode: malloc block
     u64 *idx = 0;      // index array (lanes entries)
     u64 idxcopy[MAXL];
-    std::vector<u64> copy; // input snapshot
+    std::vector<u64> copy; // input snapshot (concatenation of the ranges)
+    // positions that exist: dense slot = one range [0,len); sparse slot (huge stride) = the pages that hold designated
+    // elements inside a PROT_NONE reservation of the whole span -- everything else faults on any access
+    std::vector<std::pair<size_t, size_t>> rng;
+    char *map = 0;
+    size_t maplen = 0;
+    bool sparse = false;
+    std::vector<u64> snapshot() const
+    {
+        std::vector<u64> v;
+        for (auto &r : rng) v.insert(v.end(), base + r.first, base + r.second);
+        return v;
+    }
 };
 
 static u64 *g_big[3]; // plain mode arenas (mmap, guard pages on both sides)
@@ -237,7 +275,7 @@ inline std::string run_case(const Case &c, Counters *cnt, std::string *sample = 
     memset(&A, 0, sizeof A);
     Slot sl[3];
     u64 idxbuf[3][MAXL];
-    if (!OVL_EXACT) plain_arenas();
+    if (!OVL_PRIVATE) plain_arenas();
 
     // ---- geometry
     for (int q = 0; q < 3; q++)
@@ -246,7 +284,7 @@ inline std::string run_case(const Case &c, Counters *cnt, std::string *sample = 
         if (o.carrier == C_ARR_IDX)
         {
             for (int k = 0; k < L; k++) idxbuf[q][k] = idxval(c.ip[q], k, L, o.kind);
-            if (OVL_EXACT)
+            if (OVL_PRIVATE)
             {
                 sl[q].idx = (u64 *)malloc(L * sizeof(u64));
                 memcpy(sl[q].idx, idxbuf[q], L * sizeof(u64));
@@ -267,7 +305,7 @@ inline std::string run_case(const Case &c, Counters *cnt, std::string *sample = 
         int nk = o.carrier == C_CONST_PTR ? 1 : L;
         for (int k = 0; k < nk; k++)
             for (int i = 0; i < o.kind; i++) extq[q] = std::max(extq[q], pos_of(o, c, q, k, i, idxbuf[q]) + 1);
-        extmax = std::max(extmax, extq[q]);
+        if (extq[q] <= BIGN) extmax = std::max(extmax, extq[q]);
     }
     for (int q = 0; q < 3; q++)
     {
@@ -279,10 +317,35 @@ inline std::string run_case(const Case &c, Counters *cnt, std::string *sample = 
             if (extq[q] != extq[root[q]]) return "framework\talias form with different extents";
             sl[q].len = sl[root[q]].len;
             sl[q].base = sl[root[q]].base;
+            sl[q].rng = sl[root[q]].rng;
             A.ptr[q] = sl[q].base;
             continue;
         }
-        if (OVL_EXACT)
+        if (extq[q] > BIGN)
+        {
+            // huge stride: reserve the whole span without access rights, open only the pages that hold designated elements
+            if (OVL_PRIVATE || root_of(c.al, 1) != 1 || root_of(c.al, 2) != 2) return "framework\thuge strides only in the plain build without aliasing";
+            const size_t pg = 4096, per = pg / sizeof(u64);
+            size_t bytes = ((extq[q] * sizeof(u64) + pg - 1) / pg) * pg;
+            char *m = (char *)mmap(0, bytes, PROT_NONE, MAP_PRIVATE | MAP_ANONYMOUS | MAP_NORESERVE, -1, 0);
+            if (m == MAP_FAILED) return "uncovered\t" + fmt("mmap(PROT_NONE, MAP_NORESERVE) of %zu bytes failed: %s", bytes, strerror(errno));
+            sl[q].map = m;
+            sl[q].maplen = bytes;
+            sl[q].sparse = true;
+            sl[q].base = (u64 *)m;
+            sl[q].len = bytes / sizeof(u64);
+            std::set<size_t> pages;
+            for (int k = 0; k < L; k++)
+                for (int i = 0; i < o.kind; i++) pages.insert(pos_of(o, c, q, k, i, idxbuf[q]) / per);
+            for (size_t pgi : pages)
+            {
+                if (mprotect(m + pgi * pg, pg, PROT_READ | PROT_WRITE) != 0) return "uncovered\t" + fmt("mprotect failed: %s", strerror(errno));
+                sl[q].rng.push_back({pgi * per, (pgi + 1) * per});
+            }
+            A.ptr[q] = sl[q].base;
+            continue;
+        }
+        if (OVL_PRIVATE)
         {
             sl[q].len = extq[q];
             sl[q].alloc = (u64 *)malloc(extq[q] * sizeof(u64));
@@ -296,6 +359,7 @@ inline std::string run_case(const Case &c, Counters *cnt, std::string *sample = 
             sl[q].len = len;
             sl[q].base = g_big[q] - len;
         }
+        sl[q].rng.push_back({0, sl[q].len});
         A.ptr[q] = sl[q].base;
     }
     // ---- fill.  Objects first (an object shared with the result starts as sentinels, an input object carries a tag in
@@ -308,7 +372,10 @@ inline std::string run_case(const Case &c, Counters *cnt, std::string *sample = 
     const Operand &ro = s.r;
     auto regsent = [&](int i, int k) { return sentv(9000 + i * MAXL + k); };
     if (has_mem(ro))
-        for (size_t p = 0; p < sl[0].len; p++) sl[0].base[p] = sentv(p);
+    {
+        for (auto &r : sl[0].rng)
+            for (size_t p = r.first; p < r.second; p++) sl[0].base[p] = sentv(p);
+    }
     else
         for (int i = 0; i < 3; i++)
             for (int k = 0; k < MAXL; k++) A.reg[0][i][k] = regsent(i, k);
@@ -317,7 +384,10 @@ inline std::string run_case(const Case &c, Counters *cnt, std::string *sample = 
         const Operand &o = opnd(s, q);
         if (root[q] != q) continue;
         if (has_mem(o))
-            for (size_t p = 0; p < sl[q].len; p++) sl[q].base[p] = tagv(q, p);
+        {
+            for (auto &r : sl[q].rng)
+                for (size_t p = r.first; p < r.second; p++) sl[q].base[p] = tagv(q, p);
+        }
         else if (o.carrier == C_REG)
             for (int i = 0; i < 3; i++)
                 for (int k = 0; k < MAXL; k++) A.reg[q][i][k] = tagv(q, 8000 + k * 3 + i);
@@ -362,7 +432,7 @@ inline std::string run_case(const Case &c, Counters *cnt, std::string *sample = 
         if (o.carrier == C_NONE) continue;
         for (int k = 0; k < L; k++)
             for (int i = 0; i < o.kind; i++) val[q][k][i] = *cell(q, k, i);
-        if (has_mem(o) && root[q] == q) sl[q].copy.assign(sl[q].base, sl[q].base + sl[q].len);
+        if (has_mem(o) && root[q] == q) sl[q].copy = sl[q].snapshot();
     }
     // ---- precomputed sums (b0+b1, b0+b2, b1+b2), taken from the values b actually holds
     u64 auxbuf[3];
@@ -381,7 +451,7 @@ inline std::string run_case(const Case &c, Counters *cnt, std::string *sample = 
         }
         if (s.aux == AUX_PTR)
         {
-            if (OVL_EXACT) { auxalloc = (u64 *)malloc(3 * sizeof(u64)); memcpy(auxalloc, auxbuf, sizeof auxbuf); A.auxptr = auxalloc; }
+            if (OVL_PRIVATE) { auxalloc = (u64 *)malloc(3 * sizeof(u64)); memcpy(auxalloc, auxbuf, sizeof auxbuf); A.auxptr = auxalloc; }
             else A.auxptr = auxbuf;
         }
     }
@@ -389,7 +459,7 @@ inline std::string run_case(const Case &c, Counters *cnt, std::string *sample = 
     // a snapshot of what the result object held before the call tells "never written" apart from "written"
     CallArgs before = A;
     std::vector<u64> rbefore;
-    if (has_mem(ro)) rbefore.assign(sl[0].base, sl[0].base + sl[0].len);
+    if (has_mem(ro) && !sl[0].sparse) rbefore.assign(sl[0].base, sl[0].base + sl[0].len);
 
 #if OVL_EXACT
     // exact access sets: every element of an array that the strides / indices do not designate is poisoned
@@ -427,8 +497,9 @@ inline std::string run_case(const Case &c, Counters *cnt, std::string *sample = 
         }
         return t;
     };
-    std::vector<char> desig;
-    if (has_mem(ro)) desig.assign(sl[0].len, 0);
+    std::vector<char> desig;        // dense result object
+    std::set<u64> desigs;           // sparse result object
+    if (has_mem(ro) && !sl[0].sparse) desig.assign(sl[0].len, 0);
     u64 got0[MAXL][3];
     for (int k = 0; k < L && fail.empty(); k++)
     {
@@ -440,7 +511,8 @@ inline std::string run_case(const Case &c, Counters *cnt, std::string *sample = 
             if (has_mem(ro))
             {
                 p = pos_of(ro, c, 0, k, i, idxbuf[0]);
-                desig[p] = 1;
+                if (sl[0].sparse) desigs.insert(p);
+                else desig[p] = 1;
                 got = sl[0].base[p];
             }
             else got = A.reg[0][i][k];
@@ -448,19 +520,17 @@ inline std::string run_case(const Case &c, Counters *cnt, std::string *sample = 
             if (cnt) { cnt->evals++; cnt->outcomes.insert(got % P); }
             if (got % P != ex[i] && fail.empty())
             {
-                bool untouched = has_mem(ro) ? got == rbefore[p] : got == before.reg[0][i][k];
+                bool untouched = has_mem(ro) ? got == (sl[0].sparse ? sentv(p) : rbefore[p]) : got == before.reg[0][i][k];
                 fail = "wrong\t" + fmt("lane %d coefficient %d", k, i) + (has_mem(ro) ? fmt(" (result position %llu)", (unsigned long long)p) : std::string(" (result register)")) +
                        ": got " + hex(got) + (untouched ? " (unchanged: never written)" : "") + " = " + hex(got % P) + " mod p, scalar operation gives " + hex(ex[i]) + "; " + opstr(k);
             }
         }
     }
     if (fail.empty() && has_mem(ro))
-        for (size_t p = 0; p < sl[0].len; p++)
-            if (!desig[p] && sl[0].base[p] != sentv(p))
-            {
-                fail = "write-outside\t" + fmt("result position %llu is not designated by the strides/indices but was overwritten with ", (unsigned long long)p) + hex(sl[0].base[p]);
-                break;
-            }
+        for (auto &r : sl[0].rng)
+            for (size_t p = r.first; p < r.second && fail.empty(); p++)
+                if (!(sl[0].sparse ? desigs.count(p) != 0 : desig[p] != 0) && sl[0].base[p] != sentv(p))
+                    fail = "write-outside\t" + fmt("result position %llu is not designated by the strides/indices but was overwritten with ", (unsigned long long)p) + hex(sl[0].base[p]);
     if (fail.empty() && !has_mem(ro))
         for (int i = 0; i < 3 && fail.empty(); i++)
             for (int k = 0; k < MAXL; k++)
@@ -469,11 +539,13 @@ inline std::string run_case(const Case &c, Counters *cnt, std::string *sample = 
     {
         const Operand &o = opnd(s, q);
         if (root[q] != q) continue; // the object is the result object (or operand a, which is checked as slot 1)
-        if (has_mem(o) && memcmp(sl[q].base, sl[q].copy.data(), sl[q].len * sizeof(u64)) != 0)
+        if (has_mem(o) && sl[q].snapshot() != sl[q].copy)
         {
-            size_t p = 0;
-            while (sl[q].base[p] == sl[q].copy[p]) p++;
-            fail = "input-modified\t" + fmt("operand %c position %llu changed from ", q == 1 ? 'a' : 'b', (unsigned long long)p) + hex(sl[q].copy[p]) + " to " + hex(sl[q].base[p]);
+            size_t t = 0;
+            for (auto &r : sl[q].rng)
+                for (size_t p = r.first; p < r.second && fail.empty(); p++, t++)
+                    if (sl[q].base[p] != sl[q].copy[t])
+                        fail = "input-modified\t" + fmt("operand %c position %llu changed from ", q == 1 ? 'a' : 'b', (unsigned long long)p) + hex(sl[q].copy[t]) + " to " + hex(sl[q].base[p]);
         }
         else if ((o.carrier == C_REG || o.carrier == C_REGC) && memcmp(A.reg[q], before.reg[q], sizeof A.reg[q]) != 0)
             fail = std::string("input-modified\tregister operand ") + (q == 1 ? "a" : "b") + " changed";
@@ -505,7 +577,8 @@ inline std::string run_case(const Case &c, Counters *cnt, std::string *sample = 
     for (int q = 0; q < 3; q++)
     {
         if (sl[q].alloc) free(sl[q].alloc);
-        if (OVL_EXACT && sl[q].idx) free(sl[q].idx);
+        if (sl[q].map && root[q] == q) munmap(sl[q].map, sl[q].maplen);
+        if (OVL_PRIVATE && sl[q].idx) free(sl[q].idx);
     }
     if (auxalloc) free(auxalloc);
     return fail;
@@ -648,6 +721,7 @@ inline void run_overload(int si, bool thorough, const char *prop)
                         c.vd = vd;
                         c.vm = vm;
                         c.al = al;
+                        c.reent = 0;
                         std::string cs_ = casestr(c);
                         if (g_cur) { strncpy(g_cur, cs_.c_str(), 4000); g_cur[4000] = 0; }
                         std::string smp;
@@ -677,6 +751,179 @@ done:
     }
     rep().flush();
 }
+
+// ---------------------------------------------------------------- huge strides (plain build)
+// Every overload with a scalar stride on an array carrier: strides 715827883 (3*s >= 2^31), 2^31+5, 2^32+7 -- each stride
+// parameter alone (the others unit) and all together; tag pass; the array is a PROT_NONE reservation of the whole span in which
+// only the pages of the designated elements exist.  A 32-bit stride parameter only gets values that fit.
+inline void run_huge(int si, const char *prop)
+{
+    const Spec &s = ovl_specs[si];
+    std::vector<int> sq;
+    for (int q = 0; q < 3; q++)
+        if (opnd(s, q).carrier == C_ARR_STRIDE) sq.push_back(q);
+    if (sq.empty()) return;
+    Counters cnt;
+    long long n = 0, unc = 0;
+    for (u64 h : STRIDES_HUGE)
+        for (size_t pick = 0; pick <= sq.size(); pick++) // pick < size: that slot alone; pick == size: all of them
+        {
+            if (pick == sq.size() && sq.size() < 2) continue;
+            Case c;
+            memset(&c, 0, sizeof c);
+            c.si = si;
+            c.vm = 1;
+            bool any = false;
+            for (int q = 0; q < 3; q++)
+            {
+                const Operand &o = opnd(s, q);
+                c.s[q] = o.kind;
+                c.ip[q] = IP_IDENT;
+                bool mine = o.carrier == C_ARR_STRIDE && (pick == sq.size() || sq[pick] == q);
+                if (mine && !((s.s32 >> q) & 1 && h > 0xFFFFFFFFULL)) { c.s[q] = h; any = true; }
+            }
+            if (!any) continue;
+            std::string cs_ = casestr(c);
+            if (g_cur) { strncpy(g_cur, cs_.c_str(), 4000); g_cur[4000] = 0; }
+            std::string f = run_case(c, &cnt);
+            n++;
+            if (f.empty()) continue;
+            size_t t = f.find('\t');
+            if (f.substr(0, t) == "uncovered")
+            {
+                if (!unc++) rep().uncovered(fmt("huge-stride pass of %s: ", s.id) + f.substr(t + 1));
+                continue;
+            }
+            rep().viol(std::string(prop) + "." + f.substr(0, t) + "." + s.id + sig_suffix(c), cs_, fmt("%s(%s) %s:%d: ", s.name, s.decl, s.file, s.line) + f.substr(t + 1));
+        }
+    if (g_cur) g_cur[0] = 0;
+    rep().stat("states", cnt.cases);
+    rep().stat("transitions", cnt.cases);
+    rep().stat("evaluations", cnt.evals);
+    rep().stat("distinct_nontrivial", cnt.cases);
+    rep().stat("hugestride_states", cnt.cases);
+    rep().flush();
+}
+
+inline std::string clean(std::string t);
+#if OVL_TSAN
+// ---------------------------------------------------------------- re-entrancy (ThreadSanitizer build)
+// Every overload is executed by T threads at the same time, each thread on its own private heap blocks (tag pass, stride 5 /
+// scattered indices).  (a) every thread's result must equal the sequential oracle; (b) the library code is instrumented
+// (inline functions of the headers are compiled into this binary), so any state shared between two executions -- a
+// function-local static buffer -- is a data race that ThreadSanitizer reports without any lucky timing.
+inline Case reent_case(int si, int T)
+{
+    const Spec &s = ovl_specs[si];
+    Case c;
+    memset(&c, 0, sizeof c);
+    c.si = si;
+    c.vm = 1;
+    c.reent = T;
+    for (int q = 0; q < 3; q++)
+    {
+        const Operand &o = opnd(s, q);
+        c.s[q] = o.carrier == C_ARR_STRIDE ? 5 : 0;
+        c.ip[q] = o.carrier == C_ARR_IDX ? IP_SCAT : IP_IDENT;
+    }
+    return c;
+}
+// runs the case from T threads (after a common start line, no synchronisation between the calls); returns the first failure
+inline std::string reent_run(const Case &c)
+{
+    int T = c.reent < 2 ? 3 : c.reent;
+    std::atomic<int> ready(0);
+    std::vector<std::string> fails(T);
+    std::vector<std::thread> th;
+    for (int t = 0; t < T; t++)
+        th.emplace_back([&, t]() {
+            ready.fetch_add(1);
+            while (ready.load() < T) {}
+            for (int r = 0; r < 8; r++)
+            {
+                std::string f = run_case(c, 0);
+                if (!f.empty() && fails[t].empty()) fails[t] = fmt("thread %d of %d, repetition %d: ", t, T, r) + f.substr(f.find('\t') + 1);
+            }
+        });
+    for (auto &x : th) x.join();
+    for (auto &f : fails)
+        if (!f.empty()) return f;
+    return "";
+}
+// child: stderr -> file, one marker line per overload; parent: cut the file at the markers
+inline void reentrancy_step(const std::vector<int> &todo, const char *prop, int T)
+{
+    char tmpl[] = "/tmp/ovl_tsan_XXXXXX";
+    int fd = mkstemp(tmpl);
+    if (fd < 0) { perror("mkstemp"); exit(3); }
+    fflush(stdout);
+    pid_t pid = fork();
+    if (pid == 0)
+    {
+        dup2(fd, 2);
+        alarm(900);
+        long long n = 0;
+        for (int si : todo)
+        {
+            const Spec &s = ovl_specs[si];
+            Case c = reent_case(si, T);
+            fprintf(stderr, "\nOVLMARK %d\n", si);
+            fflush(stderr);
+            std::string f = reent_run(c);
+            n += T * 8;
+            if (!f.empty())
+                rep().viol(std::string(prop) + ".reentrancy." + s.id, casestr(c), fmt("%s(%s) %s:%d: result differs from the sequential oracle when %d threads run the overload on private data: ", s.name, s.decl, s.file, s.line, T) + f);
+        }
+        rep().stat("tsan_states", (long long)todo.size());
+        rep().stat("tsan_transitions", n);
+        rep().flush();
+        fflush(stdout);
+        _exit(0);
+    }
+    int st = 0;
+    waitpid(pid, &st, 0);
+    std::string err;
+    {
+        lseek(fd, 0, SEEK_SET);
+        char buf[65536];
+        ssize_t k;
+        while ((k = read(fd, buf, sizeof buf)) > 0) err.append(buf, k);
+        close(fd);
+        unlink(tmpl);
+    }
+    size_t at = 0;
+    int last = -1;
+    while (true)
+    {
+        size_t m = err.find("\nOVLMARK ", at);
+        if (m == std::string::npos) break;
+        int si = atoi(err.c_str() + m + 9);
+        size_t nx = err.find("\nOVLMARK ", m + 1);
+        std::string seg = err.substr(m, nx == std::string::npos ? std::string::npos : nx - m);
+        last = si;
+        size_t w = seg.find("WARNING: ThreadSanitizer: data race");
+        if (w != std::string::npos)
+        {
+            const Spec &s = ovl_specs[si];
+            // first access line, first frame of it, and the location line
+            std::string acc, frame, loc;
+            size_t l1 = seg.find('\n', w);
+            if (l1 != std::string::npos) { size_t l2 = seg.find('\n', l1 + 1); acc = seg.substr(l1 + 1, l2 - l1 - 1); size_t l3 = seg.find('\n', l2 + 1); frame = seg.substr(l2 + 1, l3 - l2 - 1); }
+            size_t lo = seg.find("Location is", w);
+            if (lo != std::string::npos) loc = seg.substr(lo, seg.find('\n', lo) - lo);
+            int nrep = 0;
+            for (size_t x = w; x != std::string::npos; x = seg.find("WARNING: ThreadSanitizer: data race", x + 1)) nrep++;
+            rep().viol(std::string(prop) + ".reentrancy." + s.id, casestr(reent_case(si, T)),
+                       clean(fmt("%s(%s) %s:%d: ThreadSanitizer: data race between two executions on private data (%d report(s)): ", s.name, s.decl, s.file, s.line, nrep) + acc + " | " + frame + " | " + loc).substr(0, 900));
+        }
+        at = m + 1;
+    }
+    bool abnormal = WIFSIGNALED(st) || (WIFEXITED(st) && WEXITSTATUS(st) != 0);
+    if (abnormal && last >= 0)
+        rep().viol(std::string(prop) + ".crash." + ovl_specs[last].id, casestr(reent_case(last, T)), fmt("re-entrancy step ended abnormally (status %d) while %d threads executed this overload", st, T));
+    rep().flush();
+}
+#endif
 
 // ---------------------------------------------------------------- process isolation
 struct Iso { int kind, code; std::string err; };
@@ -723,7 +970,10 @@ inline void report_abnormal(const Iso &r, int si, const char *prop, const std::s
 {
     const Spec &s = ovl_specs[si];
     std::string where = fmt("%s(%s) %s:%d: ", s.name, s.decl, s.file, s.line);
-    std::string sfx = curcase.find(" alias=") != std::string::npos ? ".alias" : "";
+    Case cc;
+    std::string sfx;
+    bool huge = false;
+    if (parse_casestr(curcase, cc)) { sfx = sig_suffix(cc); huge = is_huge(cc); }
     size_t a = r.err.find("ERROR: AddressSanitizer");
     if (a != std::string::npos)
     {
@@ -738,7 +988,7 @@ inline void report_abnormal(const Iso &r, int si, const char *prop, const std::s
     else if (r.kind == 1 && r.code == SIGALRM)
         rep().viol(std::string(prop) + ".timeout." + s.id + sfx, curcase, where + "no answer within the time limit");
     else
-        rep().viol(std::string(prop) + ".crash." + s.id + sfx, curcase, where + (r.kind == 1 ? fmt("killed by signal %d (%s)", r.code, strsignal(r.code)) : fmt("exit code %d", r.code)) + " " + clean(r.err.substr(0, 300)));
+        rep().viol(std::string(prop) + ((huge && r.kind == 1 && r.code == SIGSEGV) ? ".segv-hugestride." + std::string(s.id) + (cc.al ? ".alias" : "") : ".crash." + std::string(s.id) + sfx), curcase, where + (r.kind == 1 ? fmt("killed by signal %d (%s)", r.code, strsignal(r.code)) : fmt("exit code %d", r.code)) + " " + clean(r.err.substr(0, 300)));
 }
 
 inline int ovl_main(int argc, char **argv)
@@ -755,12 +1005,20 @@ inline int ovl_main(int argc, char **argv)
         std::string cstr_ = casestr(c);
         strncpy(g_cur, cstr_.c_str(), 4000);
         const Spec &s = ovl_specs[c.si];
+#if OVL_TSAN
+        if (c.reent)
+        {
+            std::vector<int> one(1, c.si);
+            reentrancy_step(one, prop, c.reent);
+            return 0;
+        }
+#endif
         Iso r = isolated([&]() {
             std::string f = run_case(c, 0);
             if (!f.empty())
             {
                 size_t t = f.find('\t');
-                rep().viol(std::string(prop) + "." + f.substr(0, t) + "." + s.id + (c.al ? ".alias" : ""), cstr_, fmt("%s(%s) %s:%d: ", s.name, s.decl, s.file, s.line) + f.substr(t + 1));
+                rep().viol(std::string(prop) + "." + f.substr(0, t) + "." + s.id + sig_suffix(c), cstr_, fmt("%s(%s) %s:%d: ", s.name, s.decl, s.file, s.line) + f.substr(t + 1));
             }
             else printf("INFO replay case passes: %s\n", cstr_.c_str());
         }, 120);
@@ -768,7 +1026,7 @@ inline int ovl_main(int argc, char **argv)
         return 0;
     }
     // catalogue figures (once: the plain build reports them)
-    if (!OVL_EXACT)
+    if (!OVL_PRIVATE)
     {
         int cov = 0;
         for (int i = 0; i < ovl_nspecs; i++)
@@ -795,6 +1053,10 @@ inline int ovl_main(int argc, char **argv)
         if (ovl_specs[i].covered && (only.empty() || std::string(ovl_specs[i].id).rfind(only, 0) == 0)) todo.push_back(i);
     bool thorough = args.thorough();
     g_thorough = thorough;
+#if OVL_TSAN
+    reentrancy_step(todo, prop, 3);
+    return 0;
+#endif
     fork_pool((long)todo.size(), args.jobs, [&](long j) {
         int si = todo[j];
         static char *mine = 0; // one shared page per worker process (workers are forked from here)
@@ -807,6 +1069,16 @@ inline int ovl_main(int argc, char **argv)
             report_abnormal(r, si, prop, g_cur);
             rep().stat("overloads_aborted", 1);
             rep().flush(); // before the next child is forked (it would inherit and re-print these counters)
+        }
+        if (!OVL_PRIVATE)
+        {
+            g_cur[0] = 0;
+            Iso h = isolated([&]() { run_huge(si, prop); }, 300);
+            if (h.kind != 0)
+            {
+                report_abnormal(h, si, prop, g_cur);
+                rep().flush();
+            }
         }
     });
     rep().flush();
